@@ -2009,7 +2009,13 @@ impl<'a> Searcher<'a> {
                 expr.right.as_ref().unwrap(),
             );
 
-            result = match field_value.get_type() {
+            // pattern operators match the text of the value, whatever the column's type
+            let value_type = match op {
+                Op::Like | Op::NotLike | Op::Rx | Op::NotRx => &VariantType::String,
+                _ => field_value.get_type(),
+            };
+
+            result = match value_type {
                 VariantType::String => {
                     let val = value.to_string();
                     match op {
